@@ -45,6 +45,9 @@ CANARIES = [
     ('raders', 'S', r'let input_element = input\[input_index - 1\];', 'let input_element = input[input_index];', 'perform_fft_immut'),
     ('bluesteins', 'S', r'scratch\.split_at_mut\(self\.inner_fft_multiplier\.len\(\)\)', 'scratch.split_at_mut(self.len)', 'perform_fft_inplace'),
     ('twiddles', 'S', r'let i_squared = i as u64 \* i as u64;', 'let i_squared = (i as u32 * i as u32) as u64;', 'fill_bluesteins_twiddles'),
+    ('radix_ctor', 'S', r'\(5, verif_arc_dyn\(Butterfly32', '(4, verif_arc_dyn(Butterfly32', 'new'),
+    ('radix_ctor', 'S', r'_ => \(3, verif_arc_dyn\(Butterfly27', '_ => (2, verif_arc_dyn(Butterfly27', 'new'),
+    ('sse_butterflies', 'P', r'self\.verif_kernel2_inplace\(chunk\)', 'self.verif_kernel_inplace(chunk)', 'process_with_scratch'),
     ('planner_gates', 'S', r'if has_avx && has_fma \{', 'if has_avx || has_fma {', 'new'),
     ('dft', 'S', r'twiddle_index -= self\.twiddles\.len\(\);', 'twiddle_index -= 1;', 'perform_fft_immut'),
 ]
